@@ -94,9 +94,11 @@ def pa_rules(n_ed=None, n_cs=None, n_init=None):
     if n_cs is not None:
         r.append((r"has_common_substring_internal", n_cs))
     if n_init is not None:
+        # loops over the string (u8 slices); the loops over the 64 masks (Iter<u64>) keep the default 66
         r.append((r"init_from_partial", n_init))
-        r.append((r"is_equiv_internal|Iterator>::all::<.closure@" + PA_SRC, n_init))
-        r.append((r"Iterator>::all::<.closure@.*enumerate|Enumerate<.*all", n_init))
+        r.append((r"is_equiv_internal", n_init))
+        r.append((r"Iter<'_, u8> as core::iter::Iterator>::all::<.closure@" + PA_SRC, n_init))
+        r.append((r"Enumerate<core::slice::Iter<'_, u8>>", n_init))
     return r
 
 
@@ -154,7 +156,8 @@ K("c09_masks_b16_s4_len64", "C09", M_PA, cfg="release", tiers=("thorough",),
   bound="arbitrary masks for 4 symbols, len <= 64, |b| <= 16",
   enc=["BlockHashPositionArrayImplInternal::has_common_substring_internal"],
   assumptions=["no mask bits at positions >= len"])
-K("c09_checked_wrapper", "C09", M_PA, cfg="release", cap=(420, 900), cost=100, mem=10,
+K("c09_checked_wrapper", "C09", M_PA, cfg="release", tiers=("thorough",), cap=(0, 2400), cost=600, mem=10,
+  unwindset=pa_rules(n_cs=9),
   shape="BMC", bound="lengths (8,8) concrete, contents symbolic; real init_from + is_valid",
   enc=["BlockHashPositionArrayImpl::has_common_substring", "BlockHashPositionArray::init_from"],
   assumptions=[ASSUME_SYM])
@@ -224,20 +227,26 @@ K("c06_verify64_b16", "C06", M_ALG, cfg="release", tiers=("quick",), cap=(420, 0
   unwindset=alg_rules(n_verify=18), shape="BMC",
   bound="verify kernel ::<64>, arbitrary bytes, length <= 16, all flag combinations",
   enc=["verify_block_hash_internal::<64>"])
-K("c06_verify_wrappers", "C06", M_ALG, cfg="release", cap=(420, 900), cost=60, unwindset=alg_rules(n_verify=6),
-  shape="BMC", bound="wrapper flag wiring, length <= 4",
-  enc=["verify_block_hash_input", "verify_block_hash_current"])
-for (S, m, tiers, cap, cost) in [("short", 8, ("quick", "thorough"), (480, 1200), 200),
-                                 ("long", 8, ("thorough",), (0, 1200), 200),
-                                 ("short", 12, ("thorough",), (0, 2400), 600),
-                                 ("long", 12, ("thorough",), (0, 2400), 600)]:
-    K("c06_routes_%s_m%d" % (S, m), "C06", M_HASH, cfg="release", tiers=tiers, cap=cap, cost=cost, mem=12,
-      unwindset=alg_rules(n_norm=m + 1, n_verify=m + 8), shape="BMC",
-      bound="all routes on %s hash objects, block hashes <= %d symbols" % (S, m),
+for (nm, S, m, tiers, cap, cost) in [("c06_routes_short_m6", "short", 6, ("quick",), (600, 0), 200),
+                                     ("c06_routes_short_m8", "short", 8, ("thorough",), (0, 1800), 500),
+                                     ("c06_routes_long_m8", "long", 8, ("thorough",), (0, 1800), 500),
+                                     ("c06_routes_short_m12", "short", 12, ("thorough",), (0, 3000), 1200),
+                                     ("c06_routes_long_m12", "long", 12, ("thorough",), (0, 3000), 1200),
+                                     ("c06_is_normalized_short_m6", "short", 6, ("quick", "thorough"), (600, 1800), 200),
+                                     ("c06_is_normalized_long_m10", "long", 10, ("thorough",), (0, 3000), 900)]:
+    K(nm, "C06", M_HASH, cfg="release", tiers=tiers, cap=cap, cost=cost, mem=12,
+      unwindset=alg_rules(n_norm=m + 1, n_verify=m + 2), shape="BMC",
+      bound="normalization routes on %s hash objects, block hashes <= %d symbols" % (S, m),
       outside="object-level wrappers with longer block hashes (they only forward to the kernels)",
       enc=["FuzzyHashData::normalize", "normalize_in_place", "clone_normalized", "from_raw_form", "From<raw>",
-           "is_normalized", "to_raw_form", "from_normalized", "into_mut_raw_form", "is_valid"],
+           "is_normalized"],
       assumptions=[ASSUME_SYM, "source object valid (spec_valid)"])
+for nm in ("c06_reinterpret_short_full", "c06_reinterpret_long_full"):
+    K(nm, "C06", M_HASH, cfg="release", tiers=("quick", "thorough") if "short" in nm else ("thorough",),
+      cap=(600, 1800), cost=200, mem=12, shape="BMC",
+      bound="to_raw_form / from_normalized / From / into_mut_raw_form (dirty destination) at full capacity",
+      enc=["to_raw_form", "from_normalized", "From<norm> for raw", "into_mut_raw_form"],
+      assumptions=["source object valid and normalized (spec_valid)"])
 
 PROP_META["C05"] = {
     "technique": "Kani/CBMC BMC of store_into_bytes / len_in_str / to_string / Display on symbolic valid objects "
@@ -352,8 +361,12 @@ def gen_q(kind, st, en, prop, tiers, cap, cost, extra_name=""):
     if "digest" in kind:
         enc = ["Generator::finalize_raw_internal", "guess_output_log_block_size", "get_log_block_size_from_input_size",
                "finalize", "finalize_without_truncation", "finalize_raw"]
+    # CBMC 6.11's array field sensitivity havocs byte 0 of a memcpy destination when the copy is merged with
+    # an element store from another branch (spurious, non-replayable counterexamples in finalize_raw_internal;
+    # see DESIGN.md 0.3): the digest queries switch it off.
     q = Q(name, prop, harness=modpath(M_GEN) + "::" + name, module=M_GEN, cfg="release", tiers=tiers, cap=cap,
-          cost=cost, mem=10, shape=shape, bound=bound + "; no bound on input length, content or size",
+          cost=cost, mem=14 if "digest" in kind else 10, unwindset=[("@memcmp.0", 70)],
+          cbmc_args=["--no-array-field-sensitivity"] if "digest" in kind else None, shape=shape, bound=bound + "; no bound on input length, content or size",
           outside="soundness of inv/alpha as written; S* == ssdeep (validated on vectors only)",
           enc=enc, assumptions=ASSUME_GEN, gen={"kind": kind, "st": st, "en": en})
     add(q)
@@ -408,9 +421,11 @@ K("c01_bmc_api_l2", "C01", M_GEN, cfg="release", tiers=("thorough",), shape="BMC
   cap=(0, 2400), cost=900, enc=["Generator::update", "update_by_iter", "+=", "finalize", "finalize_without_truncation",
                                 "set_fixed_input_size_in_usize"])
 K("c03_trivial_forms", "C03", M_GEN, cfg="release", shape="inductive step", cap=(600, 1500), cost=300,
+  unwindset=[("@memcmp.0", 70)],
   bound="+= u8 == update_by_byte; empty slice / iterator are no-ops; arbitrary invariant state [2,4)",
   enc=["AddAssign<u8>", "Generator::update", "update_by_iter"], assumptions=ASSUME_GEN[:1])
 K("c03_finalize_is_pure", "C03", M_GEN, cfg="release", shape="inductive step", cap=(600, 1500), cost=300,
+  unwindset=[("@memcmp.0", 70)],
   bound="clone / finalize* leave the generator bit-identical; arbitrary invariant state [2,4)",
   enc=["Generator::clone", "finalize", "finalize_without_truncation", "finalize_raw"], assumptions=ASSUME_GEN[:1])
 K("c03_hash_buf_wiring_l3", "C03", M_EASY, cfg="release", shape="BMC", cap=(900, 2400), cost=600, mem=14,
@@ -536,9 +551,10 @@ PROP_META["C07"] = {
                  "update_rle_block on its whole precondition, 'valid => canonical', and object-level wiring",
     "assumptions": ["reference models spec_norm / spec_rle (harness/spec/norm.rs)"],
 }
-for (N, C, B, tiers, cap, cost) in [(32, 8, 8, ("quick",), (480, 0), 60), (32, 8, 12, ("thorough",), (0, 1800), 300),
-                                    (32, 8, 16, ("thorough",), (0, 2400), 900),
-                                    (64, 16, 8, ("quick",), (480, 0), 90), (64, 16, 12, ("thorough",), (0, 2400), 600)]:
+for (N, C, B, tiers, cap, cost) in [(32, 8, 6, ("quick",), (900, 0), 300), (32, 8, 8, ("thorough",), (0, 1800), 500),
+                                    (32, 8, 12, ("thorough",), (0, 2400), 900), (32, 8, 16, ("thorough",), (0, 3000), 1500),
+                                    (64, 16, 6, ("quick",), (900, 0), 300), (64, 16, 8, ("thorough",), (0, 2400), 600),
+                                    (64, 16, 12, ("thorough",), (0, 3000), 1200)]:
     K("c07_kernel%d_b%d" % (N, B), "C07", M_DUAL, cfg="release", tiers=tiers, cap=cap, cost=cost, mem=12,
       unwindset=dual_rules(n_in=B + 1, n_rle=C + 1), shape="BMC",
       bound="RLE kernels ::<%d,%d>: every raw block hash of <= %d symbols over 64 symbols" % (N, C, B),
@@ -558,15 +574,21 @@ K("c07_update_rle_8", "C07", M_DUAL, cfg="release", shape="full domain", cap=(30
 K("c07_update_rle_16", "C07", M_DUAL, cfg="release", shape="full domain", cap=(300, 600), cost=10,
   bound="none: every (offset, pos, len) satisfying the precondition of update_rle_block::<16>",
   enc=["update_rle_block::<16>"])
+K("c07_valid_only_canonical32_b5", "C07", M_DUAL, cfg="release", tiers=("quick",), cap=(900, 0), cost=300, mem=12,
+  unwindset=dual_rules(n_in=14, n_rle=9), shape="BMC",
+  bound="arbitrary RLE block (2 free symbols) on every valid normalized block hash of <= 5 symbols: accepted => canonical",
+  enc=["is_valid_rle_block_for_block_hash::<32,8>", "expand_block_hash_using_rle", "compress_block_hash_with_rle"],
+  assumptions=[ASSUME_SYM])
 for (N, C) in [(32, 8), (64, 16)]:
-    K("c07_valid_only_canonical%d_b8" % N, "C07", M_DUAL, cfg="release", tiers=("quick", "thorough") if N == 32 else ("thorough",),
-      cap=(600, 1800), cost=300, mem=12, unwindset=dual_rules(n_in=17, n_rle=C + 1), shape="BMC",
+    K("c07_valid_only_canonical%d_b8" % N, "C07", M_DUAL, cfg="release", tiers=("thorough",),
+      cap=(600, 2400), cost=900, mem=12, unwindset=dual_rules(n_in=17, n_rle=C + 1), shape="BMC",
       bound="arbitrary RLE block (2 free symbols) on every valid normalized block hash of <= 8 symbols: accepted => canonical",
       enc=["is_valid_rle_block_for_block_hash::<%d,%d>" % (N, C), "expand_block_hash_using_rle", "compress_block_hash_with_rle"],
       assumptions=[ASSUME_SYM])
-for (S, m, tiers, cap, cost) in [("short", 8, ("quick", "thorough"), (900, 2400), 600),
-                                 ("long", 8, ("thorough",), (0, 2400), 600),
-                                 ("short", 12, ("thorough",), (0, 3000), 1500)]:
+for (S, m, tiers, cap, cost) in [("short", 5, ("quick",), (900, 0), 500),
+                                 ("short", 8, ("thorough",), (0, 3000), 900),
+                                 ("long", 8, ("thorough",), (0, 3000), 900),
+                                 ("short", 12, ("thorough",), (0, 3600), 2000)]:
     K("c07_object_%s_m%d" % (S, m), "C07", M_DUAL, cfg="release", tiers=tiers, cap=cap, cost=cost, mem=14,
       unwindset=dual_rules(n_in=m + 1, n_rle=17), shape="BMC",
       bound="object routes of the %s dual type, raw block hashes <= %d symbols" % (S, m),
@@ -597,8 +619,8 @@ for nm in ("c16_triple_short_raw_m8", "c16_triple_long_norm_m8"):
     K(nm, "C16", M_HASH, cfg="release", cap=(900, 2400), cost=400, mem=12, unwindset=[("@memcmp.0", 70)], shape="BMC",
       bound="triples of valid objects, block hashes <= 8 symbols (transitivity)", enc=["Ord::cmp", "PartialEq::eq"],
       assumptions=["objects valid (spec_valid)"])
-for nm in ("c16_dual_pair_short_m8", "c16_dual_pair_long_m8", "c16_dual_hash_short_m8", "c16_dual_triple_short_m6"):
-    K(nm, "C16", M_DUAL, cfg="release", tiers=("quick", "thorough") if "short_m8" in nm and "pair" in nm else ("thorough",),
+for nm in ("c16_dual_pair_short_m5", "c16_dual_pair_short_m8", "c16_dual_pair_long_m8", "c16_dual_hash_short_m8", "c16_dual_triple_short_m6"):
+    K(nm, "C16", M_DUAL, cfg="release", tiers=("quick",) if "m5" in nm else ("thorough",),
       cap=(900, 3000), cost=900, mem=14, unwindset=dual_rules(n_in=9, n_rle=17) + [("@memcmp.0", 70)], shape="BMC",
       bound="dual hashes built from valid raw hashes with block hashes <= 8 (6) symbols",
       enc=["FuzzyHashDualData: PartialEq, Ord, PartialOrd, Hash", "from_raw_form"],
@@ -626,7 +648,7 @@ for nm, tiers, cap, cost in [("c15_short_long_raw_m16", ("quick",), (600, 0), 20
            "TryFrom<long> for short", "From<short norm> for long raw", "to_raw_form", "normalize"],
       assumptions=["source valid (spec_valid); destination arbitrary bits"])
 for nm in ("c15_dual_edges_short_m8",):
-    K(nm, "C15", M_DUAL, fn="c07_object_short_m8", cfg="release", cap=(900, 2400), cost=600, mem=14,
+    K(nm, "C15", M_DUAL, fn="c07_object_short_m8", cfg="release", tiers=("thorough",), cap=(0, 3000), cost=900, mem=14,
       unwindset=dual_rules(n_in=9, n_rle=17), shape="BMC",
       bound="dual edges (from_raw_form/from_normalized/to_raw_form/to_normalized/into_mut_raw_form/From), block hashes <= 8",
       enc=["FuzzyHashDualData conversions"], assumptions=["source valid (spec_valid)"])
@@ -710,12 +732,12 @@ for (nm, M_, tiers, cap, cost) in [("c17_target_init_short_m6", 6, ("quick", "th
                                    ("c17_target_init_long_m6", 6, ("thorough",), (0, 2400), 400),
                                    ("c17_target_init_short_m12", 12, ("thorough",), (0, 3000), 1500)]:
     K(nm, "C17", M_CMP, cfg="release", tiers=tiers, cap=cap, cost=cost, mem=14,
-      unwindset=pa_rules(n_init=M_ + 1), shape="inductive step",
+      unwindset=pa_rules(n_init=M_ + 1) + [("@memcmp.0", 520)], shape="inductive step",
       bound="FuzzyHashCompareTarget::init_from on an ARBITRARY target and From<hash>: block hashes <= %d symbols" % M_,
       enc=["FuzzyHashCompareTarget::init_from", "init_from_partial", "From<&FuzzyHashData>", "From<FuzzyHashData>", "full_eq"],
       assumptions=[ASSUME_SYM, "hash valid (spec_valid)"])
 K("c17_target_queries_m8", "C17", M_CMP, cfg="release", cap=(900, 2400), cost=400, mem=14,
-  unwindset=pa_rules(n_init=9), shape="BMC",
+  unwindset=pa_rules(n_init=9) + [("@memcmp.0", 520)], shape="BMC",
   bound="is_valid / is_equiv / clone on the reference target, block hashes <= 8 symbols",
   enc=["FuzzyHashCompareTarget::is_valid", "is_equiv", "is_equiv_except_block_size", "Clone"], assumptions=[ASSUME_SYM])
 
@@ -731,7 +753,7 @@ PROP_META["C10"] = {
     "assumptions": [ASSUME_MASKS],
 }
 C02_RULES = [(r"edit_distance_internal", 10), (r"has_common_substring_internal", 10),
-             (r"is_equiv_internal|Enumerate|enumerate", 12), ("@memcmp.0", 70)]
+             (r"is_equiv_internal", 12), (r"Enumerate<core::slice::Iter<'_, u8>>", 12), ("@memcmp.0", 70)]
 NEAR_PAIRS = [(n, n) for n in range(31)] + [(n, n + 1) for n in range(30)] + [(n + 1, n) for n in range(30)]
 FAR_PAIRS = [(0, 2), (2, 0), (0, 30), (30, 0), (13, 15), (28, 30)]
 C02_QUICK = [(3, 3), (3, 4), (4, 3), (30, 30), (29, 30), (30, 29), (0, 2)]
@@ -759,7 +781,7 @@ for (pre, fn_pairs, desc) in [("c02_t_ll_m8", [(2, 2), (3, 4), (30, 29), (30, 30
     for (a, b) in fn_pairs:
         K("%s_%d_%d" % (pre, a, b), "C02", M_CMP, cfg="release", tiers=("thorough",), cap=(0, 3000), cost=900, mem=14,
           unwindset=[(r"edit_distance_internal", 12), (r"has_common_substring_internal", 12),
-                     (r"is_equiv_internal|Enumerate|enumerate", 12), ("@memcmp.0", 70)], shape="BMC",
+                     (r"is_equiv_internal", 12), (r"Enumerate<core::slice::Iter<'_, u8>>", 12), ("@memcmp.0", 70)], shape="BMC",
           bound="%s; block sizes (3<<%d, 3<<%d)" % (desc, a, b),
           enc=["FuzzyHashCompareTarget::compare and variants"], assumptions=[ASSUME_SYM])
 for nm in ("c02_hash_compare_short_m7", "c02_hash_compare_long_m7", "c02_dual_operand_m7"):
